@@ -72,6 +72,11 @@ func backendProp(b backendSpec, meaning string) propFunc {
 			c.runGuardAgree(r, "guard.agree", inPkgs("msl"))
 			r.floor("guard.agree", 3)
 		}
+		if b.Name == "hlsl" {
+			r.Clauses = append(r.Clauses, colVecClause)
+			c.runColVec(r, "shape.colvec", inPkgs("hlsl", "ir"))
+			r.floor("shape.colvec", 5)
+		}
 		if b.Name == "hlsl" || b.Name == "msl" {
 			r.Clauses = append(r.Clauses, indexLenClause)
 			c.runIndexLen(r, "shape.indexlen", inPkgs(b.Name))
